@@ -266,6 +266,14 @@ def sample(ctx, budget=1.0, hint=None, broken=None):
         for i in range(n):
             segs.append(_rand_seg(spt, r, cur, r.choice([1.0, 3.0, 12.0]), r.choice(['line', 'line', 'quad', 'cubic'])))
             cur = segs[-1].end
+        if r.random() < 0.25:
+            # a segment that is itself a closed loop (start == end): a teardrop cubic or an out-and-back quadratic
+            k_ = r.randrange(len(segs) + 1)
+            at = segs[k_].start if k_ < len(segs) else segs[-1].end
+            w_ = complex(r.uniform(1, 6), r.uniform(1, 6))
+            loop = P.CubicBezier(at, at + w_, at + complex(-w_.real, w_.imag), at) if r.random() < 0.6 else P.QuadraticBezier(at, at + w_, at)
+            segs.insert(k_, loop)
+            n = len(segs)
         path = P.Path(*segs)
         desc = repr(path).replace('\n', ' ')
         where = r.choice(['far', 'near', 'start', 'joint', 'interior', 'beside', 'beside'])
